@@ -158,7 +158,7 @@ def part_a(ctx):
 
 # -- (b) real concurrency -------------------------------------------------------------------
 
-def gate_run(backend, n_jobs, n_tasks, order_choices, d):
+def gate_run(backend, n_jobs, n_tasks, order_choices, d, config=None):
     """One Parallel call on gate tasks; the controller releases arrived gates following order_choices.
     Returns (high-water mark, number of decision points with their menu sizes, results)."""
     import joblib
@@ -169,7 +169,11 @@ def gate_run(backend, n_jobs, n_tasks, order_choices, d):
 
     def call():
         try:
-            box["out"] = joblib.Parallel(n_jobs=n_jobs, backend=backend)(joblib.delayed(gate_task)(d, i) for i in range(n_tasks))
+            if config:
+                with joblib.parallel_config(**config):
+                    box["out"] = joblib.Parallel(n_jobs=n_jobs)(joblib.delayed(gate_task)(d, i) for i in range(n_tasks))
+            else:
+                box["out"] = joblib.Parallel(n_jobs=n_jobs, backend=backend)(joblib.delayed(gate_task)(d, i) for i in range(n_tasks))
         except BaseException as e:  # noqa
             box["exc"] = "%s: %s" % (type(e).__name__, e)
 
@@ -304,6 +308,38 @@ def session_gate(arg):
     return r
 
 
+def session_reuse(arg):
+    """Two consecutive calls in ONE process so that the second one re-uses the first one's worker pool."""
+    backend, n1, n2, n_tasks = arg
+    import warnings
+    warnings.simplefilter("ignore")
+    d = core.scratch_dir("c15r-%d" % os.getpid())
+    config = {"backend": backend}
+    if backend == "loky":
+        config["inner_max_num_threads"] = 1   # same worker environment for every n_jobs => the executor is re-used
+    high1, _m1, box1 = gate_run(backend, n1, n1, [], os.path.join(d, "g1"), config=config)
+    high2, _m2, box2 = gate_run(backend, n2, n_tasks, [], os.path.join(d, "g2"), config=config)
+    shutil.rmtree(d, ignore_errors=True)
+    return {"high1": high1, "high2": high2, "ok1": box1.get("out") == list(range(n1)), "ok2": box2.get("out") == list(range(n_tasks)),
+            "err": [box1.get("exc"), box2.get("exc")], "pids": [os.getpid()]}
+
+
+def work_reuse(arg):
+    res, timed_out, tail = run_in_session("session_reuse", list(arg), timeout=300)
+    if timed_out or res is None or "error" in res:
+        return {"arg": arg, "bad": [("pool-reuse|scenario-failed", "%r: %s" % (arg, (res or {}).get("error") if res else tail[-200:]))]}
+    bad = []
+    backend, n1, n2, n_tasks = arg
+    if res["high1"] > n1:
+        bad.append(("concurrency-exceeds-n_jobs|%s|first-call" % backend, "first call n_jobs=%d ran %d tasks at once" % (n1, res["high1"])))
+    if res["high2"] > n2:
+        bad.append(("concurrency-exceeds-n_jobs|%s|reused-pool" % backend,
+                    "a call with n_jobs=%d issued after a call with n_jobs=%d in the same process ran %d tasks at the same time" % (n2, n1, res["high2"])))
+    if not (res["ok1"] and res["ok2"]):
+        bad.append(("pool-reuse|wrong-results|%s" % backend, "results wrong or call failed: %r" % (res["err"],)))
+    return {"arg": arg, "bad": bad}
+
+
 def nest_shape(arg):
     outer, depth, inner = arg
     import joblib
@@ -408,6 +444,14 @@ def run(ctx):
         for p, b in res["fails"]:
             ctx.violation("gate-run-failed|%s" % backend, "release order %r: %s" % (p, b), {"part": "b", "item": list(res["item"])})
         ctx.sample({"part": "b", "backend": backend, "n_jobs": nj, "tasks": nt, "release_orders_run": res["execs"], "high_water": res["high"]})
+    # (b') a second call with another n_jobs in the same process (worker pool re-used)
+    reuse = [("loky", 3, 2, 4), ("loky", 2, 3, 4), ("multiprocessing", 3, 2, 4), ("threading", 3, 2, 4)]
+    if not quick:
+        reuse += [("loky", 4, 2, 5), ("loky", 3, 1, 3), ("threading", 2, 3, 4), ("multiprocessing", 2, 3, 4)]
+    for res in core.pmap(work_reuse, reuse, nproc=6):
+        nb += 2
+        for sig, msg in res["bad"]:
+            ctx.violation(sig, msg, {"part": "b-reuse", "arg": list(res["arg"])})
     # (c)
     shapes = []
     for outer in ("loky", "multiprocessing", "threading"):
@@ -425,7 +469,7 @@ def run(ctx):
     ctx.rule = ("(a) %d simulated machines (os.cpu_count x affinity x cgroup v1/v2 x LOKY_MAX_CPU_COUNT) and every n_jobs in [-2c, 2c] for "
                 "every backend class and through Parallel, n_jobs=1 thread identity; (b) gate tasks with an exact running counter, every "
                 "release order (DFS, capped per configuration) for n_jobs in {1,2,3}, N in {2,3,4}: threading in-process, loky / "
-                "multiprocessing in isolated sessions; (c) %d nesting shapes (outer backend x depth <= 3 [x explicit inner backend])"
+                "multiprocessing in isolated sessions, plus pairs of consecutive calls with different n_jobs in one process (pool re-use); (c) %d nesting shapes (outer backend x depth <= 3 [x explicit inner backend])"
                 % (len(simulated_machines(ctx.tier)), len(shapes)))
     ctx.exhaustive = True
     ctx.assumptions += ["(b)/(c) use real pools: the OS schedule is not controlled; the running counter is exact because gate tasks cannot finish before they are released",
@@ -441,7 +485,7 @@ def replay(data):
 if __name__ == "__main__":
     fn_name, arg, out_path = sys.argv[1], json.loads(sys.argv[2]), sys.argv[3]
     try:
-        res = {"session_gate": session_gate, "nest_shape": nest_shape}[fn_name](arg)
+        res = {"session_gate": session_gate, "nest_shape": nest_shape, "session_reuse": session_reuse}[fn_name](arg)
     except BaseException as e:  # noqa
         import traceback
         res = {"error": "%s: %s\n%s" % (type(e).__name__, e, traceback.format_exc()[-600:])}
